@@ -483,3 +483,135 @@ Proof.
     + rewrite (star_scan_tail rest Hr). replace (render_marked r) with (render_item r) by (destruct r; try discriminate; reflexivity). reflexivity.
     + intros _. destruct (star_body (render_item r)); [discriminate|reflexivity].
 Qed.
+
+(* ------------------------------------------------------------------ the root-level comma splitter *)
+(* the bracket stack after a stretch of text that holds no root-level comma; None = root comma or bracket error *)
+Fixpoint depth_scan (x : str) (stack : list ch) : option (list ch) :=
+  match x with
+  | [] => Some stack
+  | c :: t =>
+      if N.eqb c COMMA && negb (nonempty stack) then None
+      else match br_step c stack with Some st => depth_scan t st | None => None end
+  end.
+(* balanced brackets, every comma inside brackets *)
+Definition top_ok (x : str) : bool := match depth_scan x [] with Some [] => true | _ => false end.
+
+Lemma split_top_nonempty : forall T st, split_top T st <> Some [].
+Proof.
+  induction T as [|c T IH]; intros st H.
+  - cbn [split_top] in H. destruct st; discriminate.
+  - cbn [split_top] in H. destruct (N.eqb c COMMA && negb (nonempty st)).
+    + destruct (split_top T []); discriminate.
+    + destruct (br_step c st) as [st1|]; [|discriminate]. destruct (split_top T st1) as [[|h r]|]; discriminate.
+Qed.
+
+Lemma split_chunk : forall x st st' T, depth_scan x st = Some st' ->
+  split_top (x ++ T) st = match split_top T st' with Some (h :: r) => Some ((x ++ h) :: r) | _ => None end.
+Proof.
+  induction x as [|c x IH]; intros st st' T H.
+  - cbn [depth_scan] in H. injection H as <-. cbn [app]. destruct (split_top T st) as [[|h r]|] eqn:E; try reflexivity. exfalso. exact (split_top_nonempty T st E).
+  - cbn [depth_scan] in H. cbn [app split_top]. destruct (N.eqb c COMMA && negb (nonempty st)); [discriminate|].
+    destruct (br_step c st) as [st1|]; [|discriminate]. rewrite (IH st1 st' T H).
+    destruct (split_top T st') as [[|h r]|]; reflexivity.
+Qed.
+
+Lemma top_ok_sp : forall x, top_ok x = true -> depth_scan (SP :: x) [] = Some [].
+Proof. intros x H. unfold top_ok in H. cbn. destruct (depth_scan x []) as [[|? ?]|]; try discriminate. reflexivity. Qed.
+Lemma top_ok_scan : forall x, top_ok x = true -> depth_scan x [] = Some [].
+Proof. intros x H. unfold top_ok in H. destruct (depth_scan x []) as [[|? ?]|]; try discriminate. reflexivity. Qed.
+
+Lemma sep_item_scan : forall r, top_ok (render_marked r) = true -> depth_scan (sep_item r) [] = Some [].
+Proof. intros r H. unfold sep_item. destruct (is_star_item r); [apply top_ok_scan|apply top_ok_sp]; exact H. Qed.
+
+Lemma split_tail : forall rest, forallb (fun r => top_ok (render_marked r)) rest = true ->
+  split_top (tail_marked rest) [] = Some ([] :: map sep_item rest).
+Proof.
+  induction rest as [|y rest IH]; intro H; [reflexivity|]. cbn [forallb] in H. apply andb_true_iff in H. destruct H as [Hy Hr].
+  unfold tail_marked. cbn [map concat]. fold (tail_marked rest). cbn [app split_top]. change (N.eqb COMMA COMMA && negb (nonempty [])) with true. cbv iota.
+  rewrite (split_chunk _ _ _ _ (sep_item_scan y Hy)), (IH Hr). rewrite app_nil_r. reflexivity.
+Qed.
+
+Lemma split_marked : forall r rest, forallb (fun r => top_ok (render_marked r)) (r :: rest) = true ->
+  split_top (marked_text (r :: rest)) [] = Some (render_marked r :: map sep_item rest).
+Proof.
+  intros r rest H. cbn [forallb] in H. apply andb_true_iff in H. destruct H as [Hy Hr]. unfold marked_text.
+  rewrite (split_chunk _ _ _ _ (top_ok_scan _ Hy)), (split_tail rest Hr). rewrite app_nil_r. reflexivity.
+Qed.
+
+(* ------------------------------------------------------------------ blanks *)
+Definition trimmed (x : str) : bool := nonempty x && head_out js_ws x && head_out js_ws (rev x).
+
+Lemma trimmed_strip : forall x, trimmed x = true -> strip_ws LJs x = x.
+Proof.
+  intros x H. unfold trimmed in H. apply andb_true_iff in H. destruct H as [H H3]. apply andb_true_iff in H. destruct H as [H1 H2].
+  apply strip_by_id; assumption.
+Qed.
+Lemma trimmed_strip_sp : forall x, trimmed x = true -> strip_ws LJs (SP :: x) = x.
+Proof.
+  intros x H. rewrite <- (trimmed_strip x H) at 2. unfold strip_ws, strip_by. reflexivity.
+Qed.
+Lemma strip_sep_item : forall r, trimmed (render_marked r) = true -> strip_ws LJs (sep_item r) = render_marked r.
+Proof. intros r H. unfold sep_item. destruct (is_star_item r); [apply trimmed_strip|apply trimmed_strip_sp]; exact H. Qed.
+
+Lemma head_out_app_ne : forall f (x y : str), x <> [] -> head_out f (x ++ y) = head_out f x.
+Proof. intros f [|c x] y H; [contradiction|reflexivity]. Qed.
+Lemma head_out_rev_app : forall f (A B : str), B <> [] -> head_out f (rev (A ++ B)) = head_out f (rev B).
+Proof.
+  intros f A B H. rewrite rev_app_distr. apply head_out_app_ne. intro E. apply (f_equal (@rev ch)) in E. rewrite rev_involutive in E. contradiction.
+Qed.
+Lemma head_out_ws_sp : forall x, head_out js_ws x = true -> head_out is_sp x = true.
+Proof.
+  intros [|c x] H; [reflexivity|]. cbn [head_out] in *. apply negb_true_iff in H. apply negb_true_iff.
+  destruct (is_sp c) eqn:E; [|reflexivity]. rewrite (sp_ws c E) in H. discriminate.
+Qed.
+Lemma trimmed_inv : forall x, trimmed x = true -> x <> [] /\ head_out js_ws x = true /\ head_out js_ws (rev x) = true.
+Proof.
+  intros x H. unfold trimmed in H. apply andb_true_iff in H. destruct H as [H H3]. apply andb_true_iff in H. destruct H as [H1 H2].
+  repeat split; try assumption. destruct x; [discriminate|discriminate].
+Qed.
+
+Lemma marked_last : forall rest pre, trimmed pre = true -> forallb (fun r => trimmed (render_marked r)) rest = true ->
+  head_out is_sp (rev (pre ++ tail_marked rest)) = true.
+Proof.
+  induction rest as [|y rest IH]; intros pre Hp H.
+  - unfold tail_marked. cbn [map concat]. rewrite app_nil_r. apply head_out_ws_sp. exact (proj2 (proj2 (trimmed_inv pre Hp))).
+  - cbn [forallb] in H. apply andb_true_iff in H. destruct H as [Hy Hr]. unfold tail_marked. cbn [map concat]. fold (tail_marked rest).
+    unfold sep_item. replace (pre ++ (COMMA :: (if is_star_item y then [] else [SP]) ++ render_marked y) ++ tail_marked rest)
+      with ((pre ++ COMMA :: (if is_star_item y then [] else [SP])) ++ (render_marked y ++ tail_marked rest)).
+    + rewrite head_out_rev_app; [exact (IH _ Hy Hr)|]. destruct (trimmed_inv _ Hy) as [Hne _]. destruct (render_marked y); [contradiction|discriminate].
+    + rewrite <- !app_assoc. cbn [app]. rewrite <- !app_assoc. reflexivity.
+Qed.
+
+Lemma strip_sp_marked : forall items, forallb (fun r => trimmed (render_marked r)) items = true ->
+  strip_sp (marked_text items) = marked_text items.
+Proof.
+  intros [|r rest] H; [reflexivity|]. cbn [forallb] in H. apply andb_true_iff in H. destruct H as [Hy Hr]. unfold strip_sp, marked_text.
+  destruct (trimmed_inv _ Hy) as (Hne & Hh & _). apply strip_by_id.
+  - rewrite head_out_app_ne by exact Hne. apply head_out_ws_sp. exact Hh.
+  - exact (marked_last rest _ Hy Hr).
+Qed.
+
+(* ------------------------------------------------------------------ the select list *)
+Definition item_ok (lits : list str) (r : ritem) : bool :=
+  wf_item lits r && star_ok r && trimmed (render_marked r) && top_ok (render_marked r).
+
+Definition expected_infos (items : list ritem) : list (option jinfo) :=
+  map (option_map jinfo_of_cinfo) (map info_of (map shape items)).
+
+Theorem infos_js_agrees : forall lits items, items <> [] -> forallb (item_ok lits) items = true ->
+  infos_js (src_text items) lits = Some (expected_infos items).
+Proof.
+  intros lits items Hne H.
+  assert (H1 : forallb (wf_item lits) items = true /\ forallb star_ok items = true /\
+               forallb (fun r => trimmed (render_marked r)) items = true /\ forallb (fun r => top_ok (render_marked r)) items = true).
+  { clear Hne. induction items as [|r items IH]; [repeat split|]. cbn [forallb] in *. apply andb_true_iff in H. destruct H as [Hr Hi].
+    destruct (IH Hi) as (A & B & C & D). unfold item_ok in Hr. apply andb_true_iff in Hr. destruct Hr as [Hr R4]. apply andb_true_iff in Hr. destruct Hr as [Hr R3].
+    apply andb_true_iff in Hr. destruct Hr as [R1 R2]. rewrite A, B, C, D, R1, R2, R3, R4. repeat split. }
+  destruct H1 as (A & B & C & D). unfold infos_js, adhoc_infos, split_spans. rewrite (star_hdr_marked items B), (strip_sp_marked items C).
+  destruct items as [|r rest]; [contradiction|]. rewrite (split_marked r rest D). cbn [option_map]. f_equal. unfold expected_infos.
+  cbn [forallb] in A, C. apply andb_true_iff in A, C. destruct A as [A1 A2], C as [C1 C2]. cbn [map]. f_equal.
+  - rewrite <- (info_js_agrees lits r A1). unfold info_js. rewrite (trimmed_strip _ C1), (trimmed_strip _ C1). reflexivity.
+  - clear D B Hne H. induction rest as [|y rest IH]; [reflexivity|]. cbn [forallb] in A2, C2. apply andb_true_iff in A2, C2. destruct A2 as [A2 A3], C2 as [C2 C3].
+    cbn [map]. f_equal; [|exact (IH A3 C3)]. rewrite (strip_sep_item y C2). rewrite <- (info_js_agrees lits y A2).
+    unfold info_js. rewrite (trimmed_strip _ C2). reflexivity.
+Qed.
